@@ -2,6 +2,7 @@
 K3: classification of every `raise` in src/microjs (only the JSError family may reach Context.eval; private classes are
 converted at the listed sites).  B: character soup, token soup, truncations / splices / mutations / prefixes of the corpus
 under a watchdog; every built-in called with an adversarial argument grid."""
+from pyvc import structural as _S_
 import glob, os, random, json
 from pyvc import groups
 from pyvc.groups import ob
@@ -23,7 +24,7 @@ def c04_struct(tier="quick", seed=0):
     for mod, mi in S.source().modules.items():
         for n in ast.walk(mi.tree):
             if isinstance(n, ast.Raise) and n.exc is not None:
-                cls = ast.unparse(n.exc.func) if isinstance(n.exc, ast.Call) else ast.unparse(n.exc)
+                cls = _S_.unparse(n.exc.func) if isinstance(n.exc, ast.Call) else _S_.unparse(n.exc)
                 seen.setdefault(cls, []).append(f"{mod.split('.')[-1]}:{n.lineno}")
     # private exception classes of the package (defined in src/microjs, outside the JSError family) are acceptable
     # when the package itself catches them: some handler names the class (its conversion site)
@@ -34,7 +35,7 @@ def c04_struct(tier="quick", seed=0):
                 defined.add(n.name)
             if isinstance(n, ast.ExceptHandler) and n.type is not None:
                 for t in (n.type.elts if isinstance(n.type, ast.Tuple) else [n.type]):
-                    caught.add(ast.unparse(t).split(".")[-1])
+                    caught.add(_S_.unparse(t).split(".")[-1])
     for cls, sites in sorted(seen.items()):
         private_ok = cls in defined and cls in caught and cls not in ALLOWED
         if private_ok and cls not in CONVERTED:
@@ -43,11 +44,11 @@ def c04_struct(tier="quick", seed=0):
         out.append(ob(f"C04.struct.raise.{cls}", ok, "K3", f"{len(sites)} raise sites of {cls}: " + ("JSError family" if cls in ALLOWED else CONVERTED.get(cls, "re-raise / parser error helper") if ok else f"a host exception class raised at {sites[:4]}"),
                       witness=(f"the code path reaching {sites[0]}" if not ok else None)))
     from microjs.opcodes import OpCode
-    ops_src = ast.unparse(S.fn("microjs.vm", "VM._execute_opcode"))
+    ops_src = _S_.unparse(S.fn("microjs.vm", "VM._execute_opcode"))
     emitted = set(S.opcode_names_in(S.source().modules["microjs.compiler"].tree))
     missing = [m.name for m in OpCode if m.name in emitted and f"OpCode.{m.name}" not in ops_src]
     out.append(ob("C04.struct.opcodes-all-handled", not missing, "K3", f"opcodes without a branch in _execute_opcode: {missing}"))
-    perr = ast.unparse(S.fn("microjs.parser", "Parser._error"))
+    perr = _S_.unparse(S.fn("microjs.parser", "Parser._error"))
     out.append(ob("C04.struct.parser-error-positioned", "JSSyntaxError(" in perr and "line" in perr and "column" in perr, "K3", "Parser._error builds JSSyntaxError(message, line, column) from a token"))
     return out
 
